@@ -233,7 +233,7 @@ R("eq-c20-plane-refactored", U, "    rs = rho / (t_mm / 1e3)\n    return (rs * l
 # ----------------------------------------------------------------------------------------------- diffs
 FIX_REVERT_FIRES = {
     "F1": ["C03", "C01", "C02"], "F2": ["C11"], "F3": ["C12"], "F4": ["C17"], "F5": ["C15"], "F6": ["C14"],
-    "F7": ["C16", "C05"], "F8": ["C07", "C16"], "F9": ["C05", "C08", "C01"], "F10": ["C08"], "F11": ["C02"],
+    "F7": ["C16"], "F8": ["C07", "C16"], "F9": ["C05", "C08", "C01"], "F10": ["C08"], "F11": ["C02"],
 }
 
 
@@ -255,3 +255,65 @@ def all_variants():
         out.append({"id": "seeded-" + os.path.basename(d), "type": "diff", "path": os.path.relpath(os.path.join(d, "patch.diff"), VERIF),
                     "reverse": False, "fires": meta.get("detected_by", []), "silent": [], "note": meta.get("summary", "")})
     return out
+
+
+# ----------------------------------------------------------------------------------------------- C05
+def _c05():
+    R("c05-scan-break-removed", C, "                inp = i\n                break\n", "                inp = i\n", fires=["C05"], note="last live input wins")
+    R("c05-scan-reversed", C, '        for i in range(len(pstate["off"])):\n            if pstate["off"][i] == False and abs(vi[i]) != 0.0:', '        for i in reversed(range(len(pstate["off"]))):\n            if pstate["off"][i] == False and abs(vi[i]) != 0.0:', fires=["C05"])
+    R("c05-live-test-or", C, '            if pstate["off"][i] == False and abs(vi[i]) != 0.0:', '            if pstate["off"][i] == False or abs(vi[i]) != 0.0:', fires=["C05"])
+    R("c05-live-test-ignores-off", C, '            if pstate["off"][i] == False and abs(vi[i]) != 0.0:', '            if abs(vi[i]) != 0.0:', fires=["C05"])
+    R("c05-rs-of-first-input", C, '            r = abs(self._params["rs"][pinp])', '            r = abs(self._params["rs"][0])', fires=["C05", "C01"])
+    R("c05-parent-name-of-first-input", S, '                        pn = self._g[p[pinp]]._params["name"]', '                        pn = self._g[p[0]]._params["name"]', fires=["C05"])
+    R("c05-vin-of-first-input", S, "                        vi = v[p[pinp]]", "                        vi = v[p[0]]", fires=["C05", "C01"])
+    R("c05-order-stored-sorted", S, '        self._g.attrs["pnames"][cidx] = pidx', '        pidx = sorted(pidx)\n        self._g.attrs["pnames"][cidx] = pidx', fires=["C05"])
+    R("c05-parents-ignore-stored-order", S, '                if len(ind) > 1:\n                    for i in range(len(ind)):\n                        ind[i] = self._g.attrs["pnames"][n][i]\n', '', fires=["C05"])
+    R("c05-child-curr-uses-graph-predecessors", S, "            pp = self._parents[c]\n            vc = [v[c]]", "            pp = [i for i in self._g.predecessor_indices(c)]\n            vc = [v[c]]", fires=["C05", "C01"])
+    R("c05-domain-scan-forward-overwrite", S, "            for i in reversed(range(len(vin))):\n                if abs(vin[i]) != 0.0:\n                    idx = i", "            for i in range(len(vin)):\n                if abs(vin[i]) != 0.0:\n                    idx = i", fires=["C05"])
+    R("c05-domain-of-first-input", S, "            an = rx.ancestors(self._g, p[idx])\n            if an == set():\n                return self._g[p[idx]]._params[\"name\"]", "            an = rx.ancestors(self._g, p[0])\n            if an == set():\n                return self._g[p[0]]._params[\"name\"]", fires=["C05"])
+    R("eq-c05-scan-return-form", C, '        inp = -1\n        for i in range(len(pstate["off"])):\n            if pstate["off"][i] == False and abs(vi[i]) != 0.0:\n                inp = i\n                break\n        return inp',
+      '        for k in range(len(vi)):\n            if not pstate["off"][k] and vi[k] != 0:\n                return k\n        return -1', silent=["C05", "C01", "C04"])
+    R("eq-c05-domain-scan-forward-break", S, "            for i in reversed(range(len(vin))):\n                if abs(vin[i]) != 0.0:\n                    idx = i", "            for i in range(len(vin)):\n                if abs(vin[i]) != 0.0:\n                    idx = i\n                    break", silent=["C05"])
+
+
+_c05()
+
+
+# ----------------------------------------------------------------------------------------------- C07
+def _c07():
+    R("c07-subsystem-loss-over-all-sources", S, '                loss = df[df.Domain == src]["Loss (W)"].sum()', '                loss = df[df.Type == "SOURCE"]["Loss (W)"].sum()', fires=["C07"])
+    R("c07-subsystem-loss-sums-power", S, '                loss = df[df.Domain == src]["Loss (W)"].sum()', '                loss = df[df.Domain == src]["Power (W)"].sum()', fires=["C07"])
+    R("c07-energy-12h", S, "            return pwr * 24.0", "            return pwr * 12.0", fires=["C07"])
+    R("c07-energy-cycles-per-hour", S, "        cycles = 24 * 3600.0 / tot_time", "        cycles = 3600.0 / tot_time", fires=["C07"])
+    R("c07-avg-loss-unweighted", S, "            aloss = np.sum(np.multiply(np.asarray(ploss), np.asarray(ptime))) / ttot", "            aloss = np.sum(np.asarray(ploss)) / ttot", fires=["C07"])
+    R("c07-avg-power-weighted-by-loss", S, "            apwr = np.sum(np.multiply(np.asarray(ppwr), np.asarray(ptime))) / ttot", "            apwr = np.sum(np.multiply(np.asarray(ppwr), np.asarray(ploss))) / ttot", fires=["C07"])
+    R("c07-total-loss-includes-component-rows", S, '            loss = df[(df.Domain == "") & (df["Loss (W)"] != "")]["Loss (W)"].sum()', '            loss = df[df["Loss (W)"] != ""]["Loss (W)"].sum()', fires=["C07"])
+    R("c07-total-eff-of-loss", S, '''            df.at[idx, "Loss (W)"] = loss
+            df.at[idx, "Efficiency (%)"] = _get_eff(pwr, pwr - loss)
+            if energy:
+                df.at[idx, "24h energy (Wh)"] = self._calc_energy(ph, pwr)
+            if len(sources) < 2:''', '''            df.at[idx, "Loss (W)"] = loss
+            df.at[idx, "Efficiency (%)"] = _get_eff(pwr, loss)
+            if energy:
+                df.at[idx, "24h energy (Wh)"] = self._calc_energy(ph, pwr)
+            if len(sources) < 2:''', fires=["C07"])
+    R("c07-mux-inherits-previous-domain", S, '''            an = rx.ancestors(self._g, p[idx])
+            if an == set():
+                return self._g[p[idx]]._params["name"]
+            for i in an:
+                if self._g.in_degree(i) == 0:
+                    return self._g[i]._params["name"]''', '''            an = rx.ancestors(self._g, p[idx])
+            if an == set():
+                return domain''', fires=["C07", "C05"])
+    R("c07-domain-carried-scalar", S, '''                pdom = "none"
+                if self._parents[n] != -1:
+                    pdom = ndom[self._parents[n][0]]
+                dname = self._find_domain(n, pdom, v)''', '''                dname = self._find_domain(n, dname, v)''', fires=["C07"])
+    R("c07-domain-of-last-parent", S, "                    pdom = ndom[self._parents[n][0]]", "                    pdom = ndom[self._parents[n][-1]]", fires=["C07"])
+    R("c07-avg-energy-of-last-phase", S, '                vals += [self._calc_energy("", apwr)]', '                vals += [self._calc_energy("", pwr)]', fires=["C07"])
+    R("c07-phase-time-of-first-phase", S, '                ptime += [self._g.attrs["phases"][ph]]', '                ptime += [self._g.attrs["phases"][phase_list[0]]]', fires=["C07"])
+    R("eq-c07-total-selection-spelling", S, '            pwr = df[(df.Domain == "") & (df["Power (W)"] != "")]["Power (W)"].sum()', '            pwr = sum(df[(df["Power (W)"] != "") & (df["Domain"] == "")]["Power (W)"])', silent=["C07"])
+    R("eq-c07-energy-reordered", S, '        return (self._g.attrs["phases"][phase] / 3600.0) * pwr * cycles', '        return pwr * cycles * self._g.attrs["phases"][phase] / 3600.0', silent=["C07"])
+
+
+_c07()
